@@ -257,7 +257,15 @@ func runC19(c bson.D, x *Ctx) (err error) {
 		exps = append(exps, ex)
 	}
 	if asB(getD(c, "reopen")) {
-		if e := env.reopen(); e != nil {
+		if totalRemoved == 0 {
+			// nothing to expire: move the change log two hours into the past
+			// and reopen with tight retention - a pass that removes nothing
+			// is not a commit and must not trim it either
+			if e := env.age(); e != nil {
+				return fmt.Errorf("ageing the change log failed: %v", e)
+			}
+			x.Class("aged-change-log-before-a-pass-with-nothing-to-remove")
+		} else if e := env.reopen(); e != nil {
 			return fmt.Errorf("closing and reopening the database failed: %v", e)
 		}
 		x.Class("reloaded-before-pass")
@@ -295,6 +303,9 @@ func runC19(c bson.D, x *Ctx) (err error) {
 	}
 	catA := env.engine.Catalog()
 	after := contentsOf(catA)
+	if n := len(catA.Namespaces[lungo.Oplog].Documents.List); n < oplogLen {
+		return fmt.Errorf("the expiry pass (%d documents to remove) shrank the change log from %d to %d events", totalRemoved, oplogLen, n)
+	}
 	events := catA.Namespaces[lungo.Oplog].Documents.List[oplogLen:]
 	if totalRemoved == 0 {
 		if d := catalogDump(catA, false); d != dumpB {
